@@ -231,3 +231,29 @@ Lemma init_race_direct_write_witness :
   snd (interleave wit_sched wit_f0 (wit_progs false)) = [inl [OUnit; OUnit]; inr (PExn EJobsCorrupted)]
   /\ snd (interleave wit_sched wit_f0 (wit_progs true)) = [inl [OUnit; OUnit]; inl [OUnit; OUnit]].
 Proof. split; vm_compute; reflexivity. Qed.
+
+(* ------------------------------------------------------------------ licence for the correspondence step *)
+Lemma irun_chk_irun : forall A sched (st st' : istate A),
+  irun_chk sched st = Some st' -> st' = irun (map fst sched) st.
+Proof.
+  intros A sched. induction sched as [|[a s] sched IH]; intros st st' H; simpl in H.
+  - injection H as <-. reflexivity.
+  - destruct (nth_error (snd st) a) as [[x|e|c k]|]; try discriminate.
+    destruct (csig_eqb (sig_of c) s); [|discriminate]. apply IH in H. exact H.
+Qed.
+
+(* no mismatch: the lock-step run of the implementation IS a run of the interleaving semantics under the
+   realised schedule (so every theorem about all schedules speaks about it), with the same results per
+   actor and an observationally equal final workspace *)
+Theorem model_holds_sched : forall c,
+  mismatch_C12 c = false ->
+  exists f ps,
+    irun (map fst (q_sched c)) (q_pre c, progs_of c) = (f, ps) /\
+    all2 result_match (map result_of ps) (q_results c) = true /\
+    fobs_match (frepr12 c) [q_ws c] f (q_final c) = true.
+Proof.
+  intros c H. unfold mismatch_C12 in H.
+  destruct (irun_chk (q_sched c) (q_pre c, progs_of c)) as [[f ps]|] eqn:E; [|discriminate].
+  apply negb_false_iff in H. apply andb_true_iff in H. destruct H as [H1 H2].
+  exists f, ps. split; auto. symmetry. apply irun_chk_irun. exact E.
+Qed.
